@@ -40,6 +40,7 @@ var zzZooTypes = []zzTypeSpec{
 		{name: "i", typ: "Int", args: []zzArgSpec{{name: "v", typ: "Int", hasDef: true, def: 7}, {name: "w", typ: "Int"}}},
 		{name: "e", typ: "String", args: []zzArgSpec{{name: "c", typ: "Color"}}},
 		{name: "s", typ: "String", args: []zzArgSpec{{name: "t", typ: "String"}, {name: "u", typ: "String"}}},
+		{name: "io", typ: "String", args: []zzArgSpec{{name: "in", typ: "In"}}},
 		{name: "o", typ: "Obj"},
 		{name: "onn", typ: "Obj", nonNull: true},
 		{name: "ol", typ: "Obj", list: true},
@@ -202,7 +203,13 @@ func zzLeafValue(parent, field string, args map[string]interface{}) interface{} 
 func zzBuildSchema(w *zzWorld) Schema {
 	color := NewEnum(EnumConfig{Name: "Color", Values: EnumValueConfigMap{
 		"RED": &EnumValueConfig{Value: 0}, "GREEN": &EnumValueConfig{Value: 1}, "BLUE": &EnumValueConfig{Value: "b"}}})
-	named := map[string]Type{"String": String, "Int": Int, "Boolean": Boolean, "Color": color}
+	inObj := NewInputObject(InputObjectConfig{Name: "In", Fields: InputObjectConfigFieldMap{
+		"a": &InputObjectFieldConfig{Type: Int},
+		"b": &InputObjectFieldConfig{Type: NewNonNull(String)},
+		"c": &InputObjectFieldConfig{Type: Int, DefaultValue: 5},
+		"d": &InputObjectFieldConfig{Type: color},
+	}})
+	named := map[string]Type{"String": String, "Int": Int, "Boolean": Boolean, "Color": color, "In": inObj}
 	var node *Interface
 	var uni *Union
 	objs := map[string]*Object{}
